@@ -1,6 +1,6 @@
 """Child started by the C13 harness: reports how it was launched, as one JSON line between markers."""
 import sys, os, json, signal
-info = dict(argv=sys.argv[1:], cwd=os.getcwd(), env={k: v for k, v in os.environ.items() if k.startswith('VERIF_')},
+info = dict(argv=sys.argv[1:], cwd=os.getcwd(), env={k: v for k, v in os.environ.items() if k.startswith('VPROBE_')},
             path=os.environ.get('PATH'), nenv=len(os.environ))
 try:
     import termios, fcntl, struct
